@@ -97,6 +97,7 @@ func init() {
 			}
 			out := []Instance{
 				{Scenario: "c12_ends", Params: mustJSON(EndsParams{Depth: d}), Bound: 0, Shards: 8},
+				{Scenario: "reopen_life", Params: mustJSON(LifeParams{Oracle: "delivery", Segs: 2, RetryAck: true}), Bound: 0, Shards: 8, Note: "a rejected first re-open attempt, acknowledgements during the pause: the retry resumes from the latest settled position"},
 				{Scenario: "reopen_life", Params: mustJSON(LifeParams{Oracle: "position", Segs: 2}), Bound: 0, Shards: 8, Note: "'re-opened from its latest settled position' over chains of transient ends with fail-overs / rollbacks and late acknowledgements of earlier segments"},
 				{Scenario: "c12_finite", Params: mustJSON(FiniteParams{}), Bound: b, Shards: 8},
 				{Scenario: "c12_finite", Params: mustJSON(FiniteParams{Empty: true}), Bound: b - 1, Shards: 8, Note: "one assigned vBucket has no events at all"},
